@@ -218,7 +218,7 @@ class C19(Check):
         if evD.get("outcome") == "solution":
             v.probe("feasible_spec")
             f = self.evaluate_event(plan, result, evD)
-            v.unspecified += f.unspecified
+            v.absorb_unspecified(f)
             v.rules_checked += f.checked
             for it in f.items:
                 if it["prop"] in VALIDITY_PROPS:
